@@ -297,7 +297,7 @@ SHRINK_BUDGET_S = float(os.environ.get("VP_SHRINK_BUDGET_S", "8"))
 # --------------------------------------------------------------------------
 # interpreter environments: the properties do not depend on them
 # --------------------------------------------------------------------------
-ENVS = ("warn-error", "warn-always", "log-debug", "decimal-ctx", "tz-dst")
+ENVS = ("warn-error", "warn-always", "log-debug", "log-quiet", "decimal-ctx", "tz-dst")
 CURRENT_ENV = [None]
 _LOGBUF = []
 
@@ -306,7 +306,8 @@ _LOGBUF = []
 def environment(name):
     """Run a case under a non-default interpreter state that an application may
     legitimately have set up: warnings promoted to errors / always shown, DEBUG
-    logging enabled for the three packages (records go to a memory handler), a
+    logging enabled for the three packages (records go to a memory handler), logging
+    disabled altogether, a
     coarse decimal context with another rounding mode, a process time zone with
     daylight saving.  Everything is restored afterwards."""
     import logging
@@ -347,6 +348,14 @@ def environment(name):
                     lg.setLevel(lvl)
                     lg.propagate = prop
                 logging.disable(dis)
+        elif name == "log-quiet":
+            # the application has switched logging off altogether
+            dis = logging.root.manager.disable
+            logging.disable(logging.CRITICAL)
+            try:
+                yield
+            finally:
+                logging.disable(dis)
         elif name == "decimal-ctx":
             import decimal
 
@@ -379,14 +388,14 @@ def log_off():
     in the log-debug environment, whose point is that logging is on."""
     import logging
 
-    if CURRENT_ENV[0] != "log-debug":
+    if CURRENT_ENV[0] not in ("log-debug", "log-quiet"):
         logging.disable(logging.CRITICAL)
 
 
 def log_on():
     import logging
 
-    if CURRENT_ENV[0] != "log-debug":
+    if CURRENT_ENV[0] not in ("log-debug", "log-quiet"):
         logging.disable(logging.NOTSET)
 
 
